@@ -3,7 +3,7 @@
 # refactoring (seeded/harmless/<area>/r<k>.diff) in an isolated copy; every VIOLATION is a false alarm
 cd "$(dirname "$0")/.."
 declare -A CHECKS=([pkt]="C12 C04" [cfg]="C16" [locks]="C20" [priv]="C18" [disp]="C17 C18" [strat]="C03 C09 C11"
-  [pkt2]="C12 C04" [cfg2]="C16" [locks2]="C20 C16 C09" [priv2]="C18 C17" [disp2]="C17 C18" [strat2]="C03 C06 C09 C11" [net2]="C11 C02 C04 C09" [state2]="C05 C10 C15 C19" [ck2]="C13 C14")
+  [pkt2]="C12 C04" [cfg2]="C16" [locks2]="C20 C16 C09" [priv2]="C18 C17" [disp2]="C17 C18" [strat2]="C03 C06 C09 C11" [net2]="C11 C02 C04 C09" [state2]="C05 C10 C15 C19" [ck2]="C13 C14" [items3]="C16" [file3]="C16" [rep3]="C10" [plat3]="C09 C04" [geo3]="C18 C13 C02")
 for a in ${@:-pkt cfg locks priv disp strat}; do
   for f in seeded/harmless/$a/r?.diff; do
     d=$(mktemp -d /tmp/harmless.XXXX); cp $f $d/patch.diff
